@@ -411,6 +411,24 @@ func runCase(r *vcore.Run, sc *shapeCase, fi *fieldInfo, rng *rand.Rand) {
 		c.viol("public-prefix/Public()", fmt.Sprintf("Public() is not the public prefix (err=%v)", err), map[string]any{"got": strs(pv), "want": strs(want[:nbPub]), "got_hex": fmt.Sprintf("%x", pb)})
 	} else {
 		r.Count("public.Public()-equals-prefix", 1)
+		// the public part is a value of its own: what a consumer does to its vector (gnark's
+		// Groth16 verifier appends one element per commitment; a caller may overwrite an entry)
+		// must not reach the full witness it was taken from
+		if rv := reflect.ValueOf(pw.Vector()); rv.Kind() == reflect.Slice {
+			mark := reflect.New(rv.Type().Elem()).Elem()
+			if f := mark.Addr().MethodByName("SetUint64"); f.IsValid() {
+				f.Call([]reflect.Value{reflect.ValueOf(uint64(0x5eed))})
+			}
+			if rv.Len() > 0 {
+				rv.Index(0).Set(mark)
+			}
+			_ = reflect.Append(rv, mark)
+			if after, err := vecOf(w); err != nil || !eqVec(after, want) {
+				c.viol("public-part-aliases-full-witness", "writing to / appending to the vector of Public() changed the full witness", map[string]any{"got": strs(after), "want": strs(want)})
+			} else {
+				r.Count("public.Public()-independent-of-full-witness", 1)
+			}
+		}
 	}
 	// public-only witness from an assignment whose secret fields were never assigned (the verifier's side)
 	rawPub := append([]any(nil), c.raw...)
